@@ -73,5 +73,7 @@ class SMMapSet(
         sms = super(SMMapSet, self).rate(by=by)
         sms.sample_start /= by
         sms.sample_length /= by
+        # The file offset is a time too: it is where the first beat sits
+        sms.offset /= by
 
         return sms
